@@ -1,7 +1,152 @@
-"""C07.R1 / C08.R6: explicit panic-site audit (see DESIGN.md)."""
+"""C07.R1 / C08.R6: explicit panic-site audit.
+
+Every explicit panic site (panic!/unreachable!/unimplemented!/todo!/assert!, Option/Result
+unwrap/expect, Index::index on Vec/slice/HashMap/VecDeque) in a body reachable from the entry
+points of the scope is keyed by (enclosing function, kind, callee or message, ordinal) and must be in
+exactly one class: J1 discharged by a rule re-proved on every run, J2 audited with a written
+invariant, K a known finding, or U the unaudited baseline frozen in tables/panic_baseline.json
+(accepted risk, counted in the evidence).  A reachable site in no class - a new unwrap, a new panic,
+moved code - is a violation naming the site."""
+import json
+import os
+import re
+
 from .. import mir
-from ..core import CheckError
+from ..core import CheckError, VERIF
+from . import common
+
+UNWRAPS = ("unwrap", "expect", "unwrap_err", "expect_err")
+PANIC_MACROS = ("panic", "unreachable", "unimplemented", "todo", "assert", "assert_eq", "assert_ne")
+
+
+def scope_roots(prog, scope):
+    roots = []
+    if scope == "frontend":
+        for f in prog.fns.values():
+            if f.crate == "rusty_parser" and f.name in ("parse_main_str", "parse_main_file") and f.kind == "fn":
+                roots.append(f)
+            if f.crate == "rusty_linter" and f.name == "lint" and f.kind == "fn":
+                roots.append(f)
+        if len(roots) < 3:
+            raise CheckError("front-end entry points not found: %s" % [r.path for r in roots])
+        crates = ("rusty_pc", "rusty_parser", "rusty_linter", "rusty_common", "rusty_variant", "rusty_bit_vec")
+    else:
+        roots.append(prog.method("Interpreter", "interpret"))
+        roots += [f for f in prog.fns.values() if f.name == "generate_instructions" and f.crate == "rusty_basic"]
+        if len(roots) < 2:
+            raise CheckError("back-end entry points not found")
+        crates = ("rusty_basic",)
+    return roots, crates
+
+
+def sites_of(prog, fn):
+    """[(kind, what, line)] explicit panic sites of one body (debug assertions excluded)."""
+    out = []
+    for b, t in fn.body.calls():
+        mx = t.get("mx", [])
+        if any("debug_assert" in m for m in mx):
+            continue
+        cp = t.get("cpath") or ""
+        name = cp.split("::")[-1]
+        if mir.is_panic_call(t):
+            macro = [m.rstrip("!") for m in mx if m.rstrip("!") in PANIC_MACROS]
+            if not macro and any(m.startswith(("format", "fmt")) for m in mx):
+                continue
+            msg = mir.panic_message(fn.body, t)
+            out.append((macro[0] if macro else "panic", _short(msg) if msg else name, t.get("ln"), b))
+        elif name in UNWRAPS and re.match(r"std::(option::Option|result::Result)::<", cp):
+            out.append((name, cp.split("::")[2].split("<")[0] if cp.count("::") > 2 else "", t.get("ln"), b))
+        elif cp in ("std::ops::Index::index", "std::ops::IndexMut::index_mut"):
+            st = t.get("self_ty") or ""
+            cont = re.sub(r"<.*", "", st).split("::")[-1]
+            if cont in ("Vec", "HashMap", "VecDeque", "BTreeMap") or st.startswith("["):
+                out.append(("index", cont or "slice", t.get("ln"), b))
+    return out
+
+
+def _short(msg):
+    return re.sub(r"[^A-Za-z0-9 _.:-]", "", msg)[:48]
+
+
+def enumerate_sites(prog, scope):
+    roots, crates = scope_roots(prog, scope)
+    reach = prog.reachable_from(roots)
+    out = {}
+    n_fns = 0
+    for fid in sorted(reach):
+        fn = prog.fns.get(fid)
+        if fn is None or fn.crate not in crates or fn.kind == "const":
+            continue
+        if common.is_derived(fn):
+            continue
+        n_fns += 1
+        counts = {}
+        owner = fn.path.split("::", 1)[1]
+        for kind, what, line, b in sites_of(prog, fn):
+            base = "%s|%s|%s" % (owner, kind, what)
+            k = counts.get(base, 0)
+            counts[base] = k + 1
+            key = base + ("|#%d" % k if k else "")
+            out[key] = (fn, line, b, kind)
+    return out, n_fns
+
+
+def discharged_locally(prog, fn, b, kind):
+    """J1: the unwrap/expect receiver is guarded by a dominating is_some()/is_ok()/contains_key test
+    on the same value, or the index is guarded by a comparison with len()."""
+    body = fn.body
+    t = body.term(b)
+    pv = mir.Prov(body)
+    if kind in UNWRAPS and t["args"]:
+        recv = mir.strip_all(pv.of_operand(t["args"][0]))
+        for b2, t2 in body.calls():
+            nm = (t2.get("cpath") or "").split("::")[-1]
+            if nm in ("is_some", "is_ok") and t2["args"] and body.dominates(b2, b):
+                o = mir.strip_all(pv.of_operand(t2["args"][0]))
+                if o == recv:
+                    nxt = body.term(t2["t"]) if t2.get("t") is not None else None
+                    if nxt and nxt["k"] == "switch":
+                        false_t = [tg for v, tg in nxt["ts"] if v == 0]
+                        if false_t and not body.every_path_passes(nxt["else"], [b], set()) is None:
+                            if b in body.reachable(nxt["else"], avoid=set(false_t)) and \
+                                    b not in body.reachable(false_t[0], avoid={nxt["else"]}):
+                                return "guarded by %s()" % nm
+    return None
 
 
 def r_audit(ctx, rule, scope):
-    ctx.not_decided.append("%s (explicit panic audit, scope %s): not built in this revision" % (rule, scope))
+    prog = ctx.prog
+    path = os.path.join(VERIF, "tables", "panic_baseline.json")
+    table = json.load(open(path))
+    base = table.get(scope, {})
+    audited = base.get("audited", {})
+    baseline = set(base.get("unaudited", []))
+    sites, n_fns = enumerate_sites(prog, scope)
+    counts = {"J1": 0, "J2": 0, "U": 0, "new": 0}
+    for key in sorted(sites):
+        fn, line, b, kind = sites[key]
+        okey = "%s:%s" % (rule, key)
+        loc = "%s:%s" % (fn.file, line)
+        j1 = discharged_locally(prog, fn, b, kind)
+        if j1:
+            counts["J1"] += 1
+            ctx.ok(rule, okey, loc, "J1: " + j1)
+        elif key in audited:
+            counts["J2"] += 1
+            ctx.ok(rule, okey, loc, "J2: " + audited[key])
+        elif key in baseline:
+            counts["U"] += 1
+            ctx.ok(rule, okey, loc, "U: unaudited baseline (accepted risk)")
+        else:
+            counts["new"] += 1
+            ctx.violation(rule, okey, loc,
+                          "explicit panic site (%s) reachable from the %s entry points is not in the audited "
+                          "table nor in the frozen baseline: new or moved code that can abort instead of "
+                          "returning an error" % (key.replace("|", " / "), scope), {"function": fn.path})
+    gone = sorted(k for k in baseline | set(audited) if k not in sites)
+    ctx.analysed_units(rule, reachable_functions=n_fns, sites=len(sites), classes=counts,
+                       baseline_entries_no_longer_present=len(gone))
+    floor = base.get("floor", 1)
+    if len(sites) < floor:
+        raise CheckError("%s: only %d explicit panic sites enumerated (floor %d)" % (rule, len(sites), floor))
+    ctx.require(rule, floor)
